@@ -1536,8 +1536,17 @@ static void generate_hashmap_implementations(Environment *env, StringBuilder *sb
         sb_append(sb, "    if (!found || idx < 0) ");
         if (strcmp(val, "string") == 0) sb_append(sb, "return \"\";\n"); else sb_append(sb, "return 0;\n");
         sb_appendf(sb, "    %s_Entry *e = &hm->entries[idx];\n", struct_name);
-        sb_append(sb, "    return e->value ? e->value : ");
-        if (strcmp(val, "string") == 0) sb_append(sb, "\"\";\n"); else sb_append(sb, "0;\n");
+        if (strcmp(val, "string") == 0) {
+            /* Strings are values: hand out a copy, not the buffer a later put/remove/clear/free releases */
+            sb_append(sb, "    if (!e->value) return \"\";\n");
+            sb_append(sb, "    size_t vlen = strlen(e->value);\n");
+            sb_append(sb, "    char *copy = gc_alloc_string(vlen);\n");
+            sb_append(sb, "    if (!copy) return \"\";\n");
+            sb_append(sb, "    memcpy(copy, e->value, vlen);\n");
+            sb_append(sb, "    return copy;\n");
+        } else {
+            sb_append(sb, "    return e->value ? e->value : 0;\n");
+        }
         sb_append(sb, "}\n\n");
 
         sb_appendf(sb, "static void nl_hashmap_%s_remove(%s *hm, %s key) {\n", suffix, struct_name, key_param_type);
